@@ -15,9 +15,11 @@ import (
 func init() { register("C12", checkC12) }
 
 func checkC12(p *Prog, r *Report) {
-	c12Tables(p, r)
-	c12Leap(p, r)
+	c12Tables(p, r, "C12.R1")
+	c12Leap(p, r, "C12.R2")
+	c12LeapThreshold(p, r)
 	c12Formats(p, r)
+	c12Century(p, r)
 	c12Closures(p, r)
 }
 
@@ -52,8 +54,8 @@ func intArrayLit(info *types.Info, body ast.Node, name string) ([]int64, token.P
 
 var monthLen = []int64{31, 28, 31, 30, 31, 30, 31, 31, 30, 31, 30, 31}
 
-func c12Tables(p *Prog, r *Report) {
-	r.Rule("C12.R1", "month tables agree: the forward table is the cumulative sum of the month lengths before each month, the inverse table the cumulative sum including each month (inverse[i] = forward[i+1], last = 365), and the deprecated converter uses the same table", 3)
+func c12Tables(p *Prog, r *Report, rule string) {
+	r.Rule(rule, "month tables agree: the forward table is the cumulative sum of the month lengths before each month, the inverse table the cumulative sum including each month (inverse[i] = forward[i+1], last = 365), and the deprecated converter uses the same table", 3)
 	check := func(key, which string, want []int64) {
 		fi := p.Funcs[key]
 		if fi == nil {
@@ -101,8 +103,8 @@ func divArgs(q Poly, fn string, d int64, out map[string]Poly) {
 	})
 }
 
-func c12Leap(p *Prog, r *Report) {
-	r.Rule("C12.R2", "leap-rule agreement between the two directions: with the year offsets read from the code (forward: internal year = calendar year − 1900; inverse: calendar year = internal year + 1901) both directions count leap days with the same divisor of the same elapsed-year quantity, test the leap year with the same modulus of the same year, use 365-day years, and shift the table from March on", 6)
+func c12Leap(p *Prog, r *Report, rule string) {
+	r.Rule(rule, "leap-rule agreement between the two directions: with the year offsets read from the code (forward: internal year = calendar year − 1900; inverse: calendar year = internal year + 1901) both directions count leap days with the same divisor of the same elapsed-year quantity, test the leap year with the same modulus of the same year, use 365-day years, and shift the table from March on", 6)
 	ffi := p.Funcs["hermes.DateConverter"]
 	if ffi == nil {
 		r.Ob("forward", "-", false, "DateConverter not found")
@@ -473,5 +475,143 @@ func c12Closures(p *Prog, r *Report) {
 	}
 	if n < 3 {
 		r.Ob("closures", "-", false, fmt.Sprintf("%d converter closures found, expected 3", n))
+	}
+}
+
+// c12LeapThreshold: in the inverse direction the leap correction must start
+// with the leap day itself, i.e. for day-of-year values above the table entry
+// that ends February (the inverse table's second entry).
+func c12LeapThreshold(p *Prog, r *Report) {
+	fi := p.Funcs["hermes.KalenderDate"]
+	x := walked(p, "hermes.KalenderDate")
+	if fi == nil || x == nil {
+		r.Ob("inverse:leap-threshold", "-", false, "KalenderDate not found")
+		return
+	}
+	mt, _ := intArrayLit(fi.Pkg.TypesInfo, fi.Decl.Body, "MT")
+	if len(mt) < 2 {
+		r.Ob("inverse:leap-threshold", p.Pos(fi.Decl.Pos()), false, "inverse month table not found")
+		return
+	}
+	found := false
+	for _, e := range x.Events {
+		if e.Kind != "assign" || e.Local == nil || e.Local.Name() != "KORR" {
+			continue
+		}
+		if c, ok := e.Val.ConstInt(); !ok || c != 1 {
+			continue
+		}
+		found = true
+		// guard: TG − c > 0 where TG = MASDAT − 365·YR − YR/4
+		var thr *int64
+		for _, g := range flattenGuards(e.Guards) {
+			if g.Kind != "cmp" {
+				continue
+			}
+			if !g.P.MentionsAtom(varAtom("MASDAT")) {
+				continue
+			}
+			// constant term of the polynomial, with the sign that makes MASDAT's coefficient +1
+			coef, _ := coeffOf(g.P, varAtom("MASDAT"))
+			cf, isC := coef.ConstInt()
+			if !isC || (cf != 1 && cf != -1) {
+				continue
+			}
+			cst := int64(0)
+			for _, t := range g.P.T {
+				if len(t.M) == 0 && t.C.IsInt() {
+					cst = t.C.Num().Int64()
+				}
+			}
+			op := g.Op
+			if cf == -1 {
+				cst = -cst
+				op = flipOp(op)
+			}
+			// TG + cst op 0
+			var v int64
+			switch op {
+			case token.GTR:
+				v = -cst // TG > −cst
+			case token.GEQ:
+				v = -cst - 1 // TG ≥ −cst  ⇔  TG > −cst−1
+			default:
+				continue
+			}
+			thr = &v
+		}
+		if thr == nil {
+			r.Ob("inverse:leap-threshold", p.Pos(e.Pos), false, "the leap correction is not guarded by a lower bound on the day of year")
+			continue
+		}
+		r.Ob("inverse:leap-threshold", p.Pos(e.Pos), *thr == mt[1], fmt.Sprintf("leap correction applies for day of year > %d; February ends at table entry %d, so 29 February is day %d and must be corrected", *thr, mt[1], mt[1]+1))
+	}
+	if !found {
+		r.Ob("inverse:leap-threshold", p.Pos(fi.Decl.Pos()), false, "no leap correction (KORR = 1) found in the inverse conversion")
+	}
+}
+
+// c12Century: every place that splits a two-digit year at the configured
+// century year must use the same comparison (the configuration documents
+// "1950 -> 50": years below the split belong to 20xx).
+func c12Century(p *Prog, r *Report) {
+	type site struct {
+		pos token.Pos
+		op  string
+	}
+	var sites []site
+	for _, key := range []string{"hermes.DateConverter", "hermes.LangTagConverter", "hermes.datumOld"} {
+		fi := p.Funcs[key]
+		if fi == nil {
+			continue
+		}
+		info := fi.Pkg.TypesInfo
+		// variables that hold the split: the int parameter and locals assigned from it
+		split := map[types.Object]bool{}
+		for _, f := range fi.Decl.Type.Params.List {
+			if isIntegerType(info.TypeOf(f.Type)) {
+				for _, n := range f.Names {
+					split[info.Defs[n]] = true
+				}
+			}
+		}
+		ast.Inspect(fi.Decl.Body, func(n ast.Node) bool {
+			if as, ok := n.(*ast.AssignStmt); ok && len(as.Lhs) == 1 && len(as.Rhs) == 1 {
+				if id, ok := as.Rhs[0].(*ast.Ident); ok && split[info.Uses[id]] {
+					if l, ok := as.Lhs[0].(*ast.Ident); ok {
+						if o := info.Defs[l]; o != nil {
+							split[o] = true
+						}
+					}
+				}
+			}
+			return true
+		})
+		ast.Inspect(fi.Decl.Body, func(n ast.Node) bool {
+			be, ok := n.(*ast.BinaryExpr)
+			if !ok {
+				return true
+			}
+			lx, lok := be.X.(*ast.Ident)
+			ry, rok := be.Y.(*ast.Ident)
+			switch {
+			case rok && split[info.Uses[ry]] && (be.Op == token.LSS || be.Op == token.LEQ || be.Op == token.GTR || be.Op == token.GEQ):
+				sites = append(sites, site{be.Pos(), "year " + be.Op.String() + " split"})
+			case lok && split[info.Uses[lx]] && (be.Op == token.LSS || be.Op == token.LEQ || be.Op == token.GTR || be.Op == token.GEQ):
+				sites = append(sites, site{be.Pos(), "year " + flipOp(be.Op).String() + " split"})
+			}
+			return true
+		})
+	}
+	ops := map[string]int{}
+	for _, s := range sites {
+		ops[s.op]++
+	}
+	for _, s := range sites {
+		ok := len(ops) == 1 && s.op == "year < split"
+		r.Ob("century-split", p.Pos(s.pos), ok, fmt.Sprintf("two-digit year is moved to the next century when %s; all %d sites must agree and follow the documented convention (\"1950 -> 50\": year < split) — found %v", s.op, len(sites), ops))
+	}
+	if len(sites) < 3 {
+		r.Ob("century-split", "-", false, fmt.Sprintf("only %d century-split comparisons found, 4 confirmed", len(sites)))
 	}
 }
